@@ -229,44 +229,105 @@ let with_schema (case : string) (f : ctx -> string -> 'a) : 'a =
   end else f (Lazy.force (snd (List.hd tbl))) case
 (* ============================== END OF CODEC COMMON BLOCK ============================== *)
 
-(* C02 driver.  Oracle: wire_ok on every byte string an ENC / ENC2 / RT result contains
-   (for RT: the first and the re-encoded one). *)
-let hexes_of_result (case : string) (r : string) : string list option =
-  (* the encoder outputs named by a result line, None when the line is not an OK result *)
-  match words case with
-  | "ENC" :: _ -> (match words r with ["OK"; h] -> Some [h] | _ -> None)
-  | "ENC2" :: _ -> (match words r with ["OK"; h1; h2] -> Some [h1; h2] | _ -> None)
-  | "RT" :: _ ->
-      (match List.map String.trim (split_on '|' r) with
-       | [a; _; b] ->
-           (match words a, words b with
-            | ["OK"; h1], ["OK"; h2] -> Some [h1; h2]
-            | _ -> None)
-       | _ -> None)
-  | _ -> None
+(* C01 driver.  case: "RT <mode> <msgspec> [<render table>]"; the optional 4th word lists real
+   conversions reported by the harness for non-canonical texts: ty:texthex=renderedhex,...
+   Oracle: c01_ok (built content, decoded content from the dump, first and second encoding). *)
 
-(* "HYP <msgspec>": do the hypotheses of theorem c02_wellformed hold for this object? *)
-let hyp_of (c : ctx) (spec : string) : bool =
-  let m = build_msg c spec in wf_msg c m && fresh m
+(* ---- the built content, straight from the msgspec (no model function involved) *)
+let content_of_spec (spec : string) : content =
+  let parts = Array.of_list (split_on ';' spec) in
+  if Array.length parts <> 4 then raise (Bad_case "spec: 4 parts expected");
+  let parse (s : string) : cnode list =
+    let i = ref 0 and len = String.length s in
+    let peek () = if !i < len then s.[!i] else '\000' in
+    let rec fields () : cnode list =
+      if !i < len && peek () <> ')' then begin
+        let j = !i in
+        while (match peek () with '0'..'9' -> true | _ -> false) do incr i done;
+        let f = n_of_int (int_of_string (String.sub s j (!i - j))) in
+        incr i;
+        let v = if peek () = '-' then (incr i; []) else begin
+          let j = !i in
+          while (match peek () with '0'..'9' | 'a'..'f' | 'A'..'F' -> true | _ -> false) do incr i done;
+          nlist_of_hex (String.sub s j (!i - j)) end in
+        let els = ref [] in
+        if peek () = '[' then begin
+          incr i;
+          while peek () = '(' do incr i; let e = fields () in incr i; els := e :: !els done;
+          incr i
+        end;
+        if peek () = ',' then incr i;
+        let x = CN (f, cstr v, List.rev !els) in
+        x :: fields ()
+      end else [] in
+    fields () in
+  { ct_type = nlist_of_string parts.(0); ct_hdr = parse parts.(1); ct_body = parse parts.(2); ct_trl = parse parts.(3) }
+
+(* ---- the decoded content, from a dump "T=<mt> H{..} B{..} T{..}" *)
+let content_of_dump (d : string) : content =
+  let i = ref 0 and len = String.length d in
+  let peek () = if !i < len then d.[!i] else '\000' in
+  let expect c = if peek () <> c then raise (Bad_case (Printf.sprintf "dump: %c expected at %d" c !i)); incr i in
+  let until stop = let j = !i in while !i < len && not (List.mem d.[!i] stop) do incr i done; String.sub d j (!i - j) in
+  let rec part () : cnode list =
+    expect '{'; expect 'p'; expect ':';
+    let entries = ref [] in
+    while peek () <> ';' do
+      let _key = until [':'] in expect ':';
+      let f = int_of_string (until ['=']) in expect '=';
+      let v = nlist_of_hex (until [','; ';']) in
+      if peek () = ',' then incr i;
+      entries := (f, v) :: !entries
+    done;
+    expect ';'; expect 'f'; expect ':'; ignore (until [';']); expect ';'; expect 'g'; expect ':';
+    let groups = ref [] in
+    while peek () <> ';' do
+      let f = int_of_string (until ['[']) in expect '[';
+      let els = ref [] in
+      while peek () = '{' do els := part () :: !els done;
+      expect ']';
+      if peek () = ',' then incr i;
+      groups := (f, List.rev !els) :: !groups
+    done;
+    expect ';'; ignore (until ['}']); expect '}';
+    List.rev_map (fun (f, v) -> CN (n_of_int f, v, (try List.assoc f !groups with Not_found -> []))) !entries in
+  expect 'T'; expect '=';
+  let mt = until [' '] in
+  expect ' '; expect 'H'; let h = part () in
+  expect ' '; expect 'B'; let b = part () in
+  expect ' '; expect 'T'; let t = part () in
+  { ct_type = nlist_of_string mt; ct_hdr = h; ct_body = b; ct_trl = t }
+
+let load_table (s : string) : unit =
+  let tbl = Hashtbl.create 8 in
+  List.iter (fun e ->
+    match String.index_opt e ':', String.index_opt e '=' with
+    | Some a, Some b ->
+        let ty = int_of_string (String.sub e 0 a) in
+        let t = String.sub e (a + 1) (b - a - 1) and r = String.sub e (b + 1) (String.length e - b - 1) in
+        Hashtbl.replace tbl (ty, t) (nlist_of_hex r)
+    | _ -> ()) (split_on ',' s);
+  render_hook := (fun ty v ->
+    match Hashtbl.find_opt tbl (int_of_n ty, hex_of_nlist v) with
+    | Some r -> r
+    | None -> render_default ty v)
+
+let c01_oracle (spec : string) (r : string) : bool =
+  match List.map String.trim (split_on '|' r) with
+  | [a; b; cc] ->
+      (match words a, words cc with
+       | ["OK"; h1], ["OK"; h2] when String.length b > 3 && String.sub b 0 3 = "OK " ->
+           (try c01_ok (content_of_spec spec) (content_of_dump (String.sub b 3 (String.length b - 3)))
+                  (nlist_of_hex h1) (nlist_of_hex h2)
+            with _ -> false)
+       | _ -> false)
+  | _ -> false
 
 let () = run_protocol (fun case0 impl -> with_schema case0 (fun c case ->
   match words case with
-  | ["HYP"; spec] ->
-      let h = (try hyp_of c spec with _ -> false) in
-      ((if h then "1" else "0"), impl = "1", h)
-  | _ ->
-  let m = run_op c case in
-  (* theorem c02_wellformed, checked on every case: hypotheses => the model's bytes pass wire_ok *)
-  let m = (match words case with
-           | ["ENC"; spec] | ["RT"; _; spec] ->
-               (try if hyp_of c spec && not (match hexes_of_result case m with
-                                             | Some hs -> List.for_all (fun h -> wire_ok c (nlist_of_hex h)) hs
-                                             | None -> false)
-                    then "THEOREM-CONTRADICTED " ^ m else m
-                with _ -> m)
-           | _ -> m) in
-  let oracle r =
-    match hexes_of_result case r with
-    | Some hs -> List.for_all (fun h -> wire_ok c (nlist_of_hex h)) hs
-    | None -> false in
-  (m, oracle impl, oracle m)))
+  | "RT" :: mode :: spec :: rest ->
+      render_hook := render_default;
+      (match rest with [t] -> load_table t | _ -> ());
+      let m = run_op c ("RT " ^ mode ^ " " ^ spec) in
+      (m, c01_oracle spec impl, c01_oracle spec m)
+  | _ -> ("BAD-CASE", false, false)))
